@@ -25,9 +25,11 @@ OnePerm == {{"print", "extract"}}
 BothIds == {"present", "absent"}
 
 \* ------------------------------------------------------------------------------------- passwords
-AllTried == {"e", "a", "b", "L", "L2", "M", "M2", "n", "n2", "w", "x", "c", "s"}
-PairsQuick == {<<"a", "b">>, <<"e", "b">>, <<"L", "n">>, <<"n", "M">>, <<"M", "L">>, <<"a", "same">>}
+AllTried == {"e", "a", "b", "L", "L2", "M", "M2", "n", "n2", "w", "x", "c", "s", "N", "N2", "P", "B31", "B32", "B33"}
+PairsQuick == {<<"a", "b">>, <<"e", "b">>, <<"L", "n">>, <<"n", "M">>, <<"N", "P">>, <<"B32", "B31">>, <<"a", "same">>}
 PairsFull == {<<u, o>> : u \in {"e", "a", "L", "M", "n"}, o \in {"b", "L", "M", "n", "same"}}
+             \cup {<<"N", "b">>, <<"a", "N">>, <<"N", "P">>, <<"P", "N">>, <<"P", "same">>,     \* long AND non-ASCII, either role
+                   <<"B32", "B31">>, <<"B33", "B32">>, <<"B31", "B33">>}                   \* the 32-byte boundary
 CanonPair == {<<"a", "b">>}
 OpenTried == {"a", "b"}
 
@@ -64,5 +66,5 @@ ContentQuick == Valid(Mk(Algs(KeyLensQuick), OnePerm, {"present"}, {"table", "xr
 ContentFull  == Valid(Mk(Algs(KeyLensFull), OnePerm, BothIds, {"table", "xrefstm"}, {"direct", "indirect"}))
 \* "mixed": the full product on reduced sets (thorough tier)
 MixedCfg == Valid(Mk(Algs({40, 128}), {{"print"}, {"modify", "extract"}}, BothIds, {"table", "xrefstm"}, {"direct", "indirect"}))
-MixedPairs == {<<"a", "b">>, <<"e", "n">>, <<"L", "same">>, <<"M", "L">>}
+MixedPairs == {<<"a", "b">>, <<"e", "n">>, <<"L", "same">>, <<"N", "P">>}
 ====
